@@ -9,6 +9,7 @@ import (
 	"strconv"
 	"strings"
 	"testing"
+	"unicode/utf8"
 
 	"pgregory.net/rapid"
 
@@ -334,6 +335,19 @@ func genText(t *rapid.T, form string) string {
 		}
 		if denotable(form, sb.String()+p) {
 			sb.WriteString(p)
+		}
+	}
+	if rapid.IntRange(0, 39).Draw(t, "longText") == 0 {
+		// a long body around a buffer size, with the drawn text at its end: scanners and formatters that
+		// work in chunks meet their boundary inside the literal
+		k := rapid.SampledFrom([]int{255, 256, 1023, 1024, 4095, 4096, 4097, 65536}).Draw(t, "longLen")
+		unit := rapid.SampledFrom([]string{"a", "ab%", "é", "x\\"}).Draw(t, "longUnit")
+		long := strings.Repeat(unit, k/len(unit)+1)[:k]
+		for len(long) > 0 && !denotable(form, long+sb.String()) {
+			long = long[:len(long)-1]
+		}
+		if utf8.ValidString(long) && denotable(form, long+sb.String()) {
+			return long + sb.String()
 		}
 	}
 	return sb.String()
